@@ -198,6 +198,16 @@ func checkC11(c *Check) {
 					continue
 				}
 				call := a.V.(*ssa.Call)
+				// json.Marshal of a map[string]string never fails (trusted base)
+				if a.Name == "encoding/json.Marshal" && len(call.Call.Args) == 1 {
+					at := call.Call.Args[0].Type()
+					if mi, ok := call.Call.Args[0].(*ssa.MakeInterface); ok {
+						at = mi.X.Type()
+					}
+					if typeName(at) == "map[string]string" {
+						continue
+					}
+				}
 				if sc := staticCallee(call.Common()); sc != nil && !InRepo(sc) {
 					prop = false
 				}
